@@ -54,7 +54,7 @@ def main():
             p = sh(cmd, env=env, cwd="/verif")
             out = p.stdout.splitlines()
             vio = [l for l in out if l.startswith("VIOLATION")]
-            rec = {"exit": p.returncode, "violation_lines": vio, "summary": next((l[:500] for l in out if l.startswith("check property")), ""), "tier": tier, "verif_seed": int(vseed), "how": "git -C /repo apply" if in_repo else "scratch worktree + --repo"}
+            rec = {"exit": p.returncode, "violation_lines": vio, "harness_notes": [l[:300] for l in out if l.startswith("HARNESS")][:6], "summary": next((l[:500] for l in out if l.startswith("check property")), ""), "tier": tier, "verif_seed": int(vseed), "how": "git -C /repo apply" if in_repo else "scratch worktree + --repo"}
             if vio:
                 rp = vio[0].split("replay=")[1]
                 rj = json.load(open(rp))
